@@ -71,28 +71,23 @@ def run(name, props):
     meta = json.load(open(os.path.join(d, "meta.json")))
     if not props:
         props = [meta["property"]]
-    rc, st = sh("git status --porcelain", cwd=REPO)
-    if st.strip():
-        print("/repo is dirty; refusing")
-        return 2
-    rc, o = sh("git apply --check %s" % os.path.join(d, "patch.diff"), cwd=REPO)
-    if rc != 0:
-        print("patch does not apply to /repo HEAD:", o)
-        return 2
+    wt = "/tmp/verif-seed-%d" % os.getpid()
+    sh("git -C %s worktree remove --force %s" % (REPO, wt))
+    sh("git -C %s worktree add -q --detach %s HEAD" % (REPO, wt))
     results = meta.get("checks", {})
     try:
-        sh("git apply %s" % os.path.join(d, "patch.diff"), cwd=REPO)
+        rc, o = sh("git apply %s" % os.path.join(d, "patch.diff"), cwd=wt)
+        if rc != 0:
+            print("patch does not apply to /repo HEAD:", o)
+            return 2
         for p in props:
             t0 = time.time()
-            rc, o = sh("VERIF_NO_EVIDENCE=1 ./check %s --tier quick" % p, cwd=ROOT)
+            rc, o = sh("VERIF_NO_EVIDENCE=1 VERIF_REPO=%s ./check %s --tier quick" % (wt, p), cwd=ROOT)
             lines = [l.strip()[:300] for l in o.splitlines() if "rapid] failed" in l or "VERIF-FAIL" in l or l.startswith("panic:") or "WEDGE-DEFINITIVE" in l or "INCONCLUSIVE" in l or "DATA RACE" in l][:3]
             results[p] = dict(exit=rc, outcome="DETECTED" if rc == 1 else ("missed" if rc == 0 else "inconclusive"), secs=round(time.time() - t0, 1), evidence=lines)
             print(p, results[p])
     finally:
-        sh("git checkout -- . && git clean -fdq", cwd=REPO)
-    rc, st = sh("git status --porcelain", cwd=REPO)
-    if st.strip():
-        print("WARNING: /repo not clean after restore:", st)
+        sh("git -C %s worktree remove --force %s" % (REPO, wt))
     meta["checks"] = results
     json.dump(meta, open(os.path.join(d, "meta.json"), "w"), indent=1)
     return 0
